@@ -276,8 +276,66 @@ def _mixed_task(_):
     return part
 
 
+def _ladder_task(_):
+    """(1) number / x for x = unit ** e over a ladder of exponents, one after the other on ONE database (what the
+    division of one power leaves behind must not decide the next one), in both directions of the ladder;
+    (2) long list / tuple containers (32, 40, 300 values) of python ints beyond the 64-bit range and of floats: the
+    operation is applied to the values as given (python ints are exact)."""
+    part = Part()
+    with worlds.world("posc") as db:
+        model = Model(db)
+        for unit, cat in (("m", "length"), ("s", "time"), ("kg", "mass")):
+            for exps in ((-1, -2, -3, 1, 2, 3), (3, 2, 1, -3, -2, -1), (-2, -1, 2, 1)):
+                for cls in ("Scalar", "Array"):
+                    done = []
+                    for e in exps:
+                        base = Scalar(2.0, unit, cat)
+                        x = base
+                        for _ in range(abs(e) - 1):
+                            x = x * base
+                        if e < 0:
+                            x = 1.0 / x
+                        if cls == "Array":
+                            x = Array(x.GetQuantity(), [x.value, 2 * x.value])
+                        done.append(e)
+                        for expr in ("k/x", "k//x"):
+                            part.count("evaluations")
+                            part.count("ladder_steps")
+                            sig = "C09:ladder:%s:%s:number over %s ** e for e = %s: %s" % (cls, unit, unit, done, expr)
+                            try:
+                                r = _apply(expr, x, 8.0)
+                            except Exception as ex:
+                                part.violation(sig + ":raised", {"error": repr(ex)})
+                                continue
+                            want = {t: -v for t, v in model.dimension(x.GetQuantity()).items()}
+                            if model.dimension(r.GetQuantity()) != want:
+                                part.violation(sig + ":not the reciprocal dimension", {"x": repr(x), "result": repr(r)})
+        big = 3000000000
+        for n in (32, 40, 300):
+            for mk in (list, tuple):
+                for vals, k in (([big + i for i in range(n)], 4000000000), ([1.5 + i for i in range(n)], 2.5), ([big + i for i in range(n)], 2.5)):
+                    for expr in ("k*x", "x*k", "x+k", "k-x", "x-k", "x/k"):
+                        part.count("evaluations")
+                        part.count("long_container_operations")
+                        x = Array(mk(vals), "m", "length")
+                        sig = "C09:long %s of %d %s:%s with k=%r" % (mk.__name__, n, type(vals[0]).__name__ + "s", expr, k)
+                        try:
+                            r = _apply(expr, x, k)
+                        except Exception as ex:
+                            part.violation(sig + ":raised", {"error": repr(ex)})
+                            continue
+                        want = [_pyop(expr, v, k) for v in vals]
+                        got = list(r.values)
+                        if r.GetQuantity() != x.GetQuantity() or len(got) != n or any(g != w for g, w in zip(got, want)):
+                            bad = [(g, w) for g, w in zip(got, want) if g != w][:2]
+                            part.violation(sig + ":values are not the operation on the raw numbers", {"first_differences": repr(bad)})
+    return part
+
+
 def _task(task):
     kind, payload = task
+    if kind == "ladder":
+        return _ladder_task(payload)
     if kind == "mixed":
         return _mixed_task(payload)
     if kind == "pairs":
@@ -492,7 +550,7 @@ def run(ctx):
     n = 32 if ctx.thorough else 16
     tasks = [("pool", (depth, i, n)) for i in range(n)]
     tasks += [("pairs", STEPS[i::8]) for i in range(8)]
-    tasks += [("direct", None), ("mixed", None)]
+    tasks += [("direct", None), ("mixed", None), ("ladder", None)]
     if ctx.thorough:
         with worlds.world("posc") as db:
             qts = sorted(db.GetQuantityTypes(), key=lambda q: -len(db.GetUnits(q)))
